@@ -27,6 +27,8 @@
      Write(s,p,n,v) getWriter(p)[.openChild..](value, n) through slot s; if s was opened
                   with READ, getWriter is an error and nothing changes - WHATEVER the other
                   slot's level is ("a file opened read-only cannot be modified")
+     Backdoor(s,door,p,n,v)  an attempt to write through another accessor of a file opened
+                  with READ (Doors); must be refused, nothing changes
      Read(p,n,k)  is not a step of the history: after every step the binding reads
                   EVERY slot with a FRESH CheckpointFile(name, READ) and
                   getReader(p)(target,n); ReadResult below is what it must see.
@@ -45,6 +47,11 @@ CONSTANTS PathSeq,      \* tuple of abstract group paths
           Values,       \* set of value ids (strings)
           KindOf(_),    \* value id -> kind
           HSlots,       \* set of handle slots (CheckpointFile objects that can coexist)
+          Doors,        \* other accessors of a CheckpointFile through which a write can be ATTEMPTED:
+                        \*   "loc"    CheckpointWriter(file.getReader(p).getLoc())(value, n)
+                        \*   "handle" CheckpointWriter(file.getHandle().openGroup(p))(value, n)
+                        \*   "raw"    plain HDF5 calls on file.getHandle() (create group p / attribute n)
+          BDValues,     \* value ids used for such attempts
           Depth, Emit, CrossKind
 
 VARIABLES exists, file, handle, h
@@ -102,13 +109,24 @@ WriteStored(s, p, n, v) ==
   /\ file' = [file EXCEPT ![p][n] = v]
   /\ UNCHANGED <<exists, handle>>
 
+\* any other door of a CheckpointFile opened with READ must be shut as well: the attempt is an error
+\* and nothing changes.  (Only stated for a READ handle that is the ONLY handle of the process on the
+\* file - configurations with Doors # {} have one slot: next to a writing handle HDF5 itself lets
+\* every handle of the process write, see OpenOutcomes.)
+BackdoorRefused(s) ==
+  /\ handle[s] = "READ"
+  /\ UNCHANGED <<exists, file, handle>>
+
 \* ---- the calls, recorded in the history ---------------------------------------
 \* hs = the handle slots after the call (the binding uses it to name the situation in its keys)
 Open(s, l) ==
   \E r \in OpenOutcomes(s, l) :
     /\ OpenEffect(s, l, r)
     /\ h' = Append(h, [a |-> "open", s |-> s, l |-> l, res |-> r, adm |-> OpenOutcomes(s, l) = {"ok", "err"},
-                       trunc |-> (r = "ok" /\ OpenTrunc(l)), hs |-> handle', obs |-> Obs(file')])
+                       trunc |-> (r = "ok" /\ OpenTrunc(l)), hs |-> handle', obs |-> Obs(file'),
+                       \* xr: the file is now held for READ only -> a second PROCESS can open it for READ too
+                       \* (asserted by the binding in one-slot configurations only, as above)
+                       xr |-> (r = "ok" /\ l = "READ" /\ \A o \in HSlots : handle'[o] \in {"READ", NoHandle})])
 
 Close(s) ==
   /\ CloseEffect(s)
@@ -123,10 +141,16 @@ Write(s, p, n, v) ==
      /\ h' = Append(h, [a |-> "write", s |-> s, p |-> p, n |-> n, v |-> v, res |-> "ok",
                         kc |-> ~SameKindOrFree(p, n, v), ro |-> FALSE, hs |-> handle, obs |-> Obs(file')])
 
+Backdoor(s, d, p, n, v) ==
+  /\ BackdoorRefused(s)
+  /\ h' = Append(h, [a |-> "backdoor", s |-> s, door |-> d, p |-> p, n |-> n, v |-> v, res |-> "err",
+                     ro |-> TRUE, hs |-> handle, obs |-> Obs(file)])
+
 Next == /\ Len(h) < Depth
         /\ \/ \E s \in HSlots, l \in Levels : Open(s, l)
            \/ \E s \in HSlots : Close(s)
            \/ \E s \in HSlots, p \in Paths, n \in Names, v \in Values : Write(s, p, n, v)
+           \/ \E s \in HSlots, d \in Doors, p \in Paths, n \in Names, v \in BDValues : Backdoor(s, d, p, n, v)
 Spec == Init /\ [][Next]_vars
 
 \* ---- the property, stated over the history -----------------------------------
@@ -149,7 +173,7 @@ MissingFile == ~exists => (file = Empty /\ handle = AllClosed)
 \* leaves everything as it was, whatever level the other slots have
 Last == h'[Len(h')]
 ReadOnlyUnchanged ==
-  [][(Len(h') > Len(h) /\ Last.a = "write" /\ handle[Last.s] = "READ")
+  [][(Len(h') > Len(h) /\ Last.a \in {"write", "backdoor"} /\ handle[Last.s] = "READ")
        => (Last.res = "err" /\ file' = file /\ exists' = exists /\ handle' = handle)]_vars
 \* while every open slot is READ (or none is open) only a truncating/creating open changes the file
 OnlyWritersChange ==
